@@ -119,6 +119,9 @@ func (s *setter) put(name string, val interface{}) {
 func canon(v reflect.Value) string {
 	switch v.Kind() {
 	case reflect.Slice:
+		if v.Type().Elem().Kind() == reflect.Uint8 {
+			return fmt.Sprintf("[%x]", v.Bytes())
+		}
 		parts := make([]string, v.Len())
 		for i := range parts {
 			parts[i] = canon(v.Index(i))
@@ -146,7 +149,68 @@ func canon(v reflect.Value) string {
 }
 
 // ---------------------------------------------------------------- seeded contents
-type gen struct{ r *mrand.Rand }
+// vfield: a variable-length field of the message under construction, by node id of the layout:
+// smallest and largest byte length the grammar allows, and the element size.
+type vfield struct{ lo, max, unit int }
+
+type gen struct {
+	r   *mrand.Rand
+	ov  map[string]int    // node id -> byte length wanted (size classes)
+	reg map[string]vfield // filled while building
+}
+
+// n draws the seeded length (always, so that other fields do not depend on overrides), registers
+// the field and applies an override.
+func (g gen) n(id string, lo, hi, max, unit int) int {
+	k := lo + g.r.Intn(hi-lo+1)
+	if g.reg != nil {
+		g.reg[id] = vfield{lo * unit, max * unit, unit}
+	}
+	if v, ok := g.ov[id]; ok {
+		return v / unit
+	}
+	return k
+}
+
+// The contents of a variable field come from a generator of their own (one draw from the main
+// stream whatever the length), so that resizing one field leaves every other field as it was.
+func (g gen) sub() *mrand.Rand { return mrand.New(mrand.NewSource(g.r.Int63())) }
+
+func (g gen) vbytes(id string, lo, hi, max int) []byte {
+	b := make([]byte, g.n(id, lo, hi, max, 1))
+	g.sub().Read(b)
+	return b
+}
+func (g gen) vname(id string, lo, hi, max int) string {
+	const al = "abcdefghijklmnopqrstuvwxyz0123456789-./"
+	b := make([]byte, g.n(id, lo, hi, max, 1))
+	r := g.sub()
+	for i := range b {
+		b[i] = al[r.Intn(len(al))]
+	}
+	return string(b)
+}
+func (g gen) vu16s(id string, lo, hi, max int, avoid uint16) []uint16 {
+	out := make([]uint16, g.n(id, lo, hi, max, 2))
+	r := g.sub()
+	for i := range out {
+		for {
+			out[i] = uint16(r.Intn(65536))
+			if out[i] != avoid {
+				break
+			}
+		}
+	}
+	return out
+}
+func (g gen) vpairs(id string, lo, hi, max int) [][2]byte {
+	out := make([][2]byte, g.n(id, lo, hi, max, 2))
+	r := g.sub()
+	for i := range out {
+		out[i] = [2]byte{byte(r.Intn(256)), byte(r.Intn(256))}
+	}
+	return out
+}
 
 func (g gen) bytes(lo, hi int) []byte {
 	b := make([]byte, lo+g.r.Intn(hi-lo+1))
@@ -194,54 +258,54 @@ func build(t string, pres map[string]bool, g gen) (m interface{}, set map[string
 	case "clientHello":
 		s.put("vers", uint16(g.r.Intn(65536)))
 		s.put("random", g.bytes(32, 32))
-		s.put("sessionId", g.bytes(0, 32))
+		s.put("sessionId", g.vbytes("sessionId", 0, 32, 32))
 		// 0x00ff is the renegotiation SCSV: by RFC 5746 it MEANS secureRenegotiation, so it is kept
 		// out of seeded suite lists (a list with it does not round-trip by design)
-		s.put("cipherSuites", g.u16s(1, 8, 0x00ff))
-		s.put("compressionMethods", g.bytes(1, 3))
+		s.put("cipherSuites", g.vu16s("cipherSuites", 1, 8, 32767, 0x00ff))
+		s.put("compressionMethods", g.vbytes("compression", 1, 3, 255))
 		s.put("nextProtoNeg", pres["npn"])
 		sn := ""
 		if pres["sni"] {
-			sn = g.name(1, 30)
+			sn = g.vname("sni.name", 1, 30, 65535)
 		}
 		s.put("serverName", sn)
 		s.put("ocspStapling", pres["ocsp"])
 		if pres["curves"] {
-			s.put("supportedCurves", g.u16s(1, 4, 0xffff))
+			s.put("supportedCurves", g.vu16s("curves.list", 1, 4, 32767, 0xffff))
 		} else {
 			s.put("supportedCurves", []uint16{})
 		}
 		if pres["points"] {
-			s.put("supportedPoints", g.bytes(1, 3))
+			s.put("supportedPoints", g.vbytes("points.list", 1, 3, 255))
 		} else {
 			s.put("supportedPoints", []byte{})
 		}
 		s.put("ticketSupported", pres["ticket"])
 		if pres["ticket"] {
-			s.put("sessionTicket", g.bytes(0, 40))
+			s.put("sessionTicket", g.vbytes("ticket", 0, 40, 65535))
 		} else {
 			s.put("sessionTicket", []byte{})
 		}
 		if pres["sigalgs"] {
-			s.put("signatureAndHashes", g.pairs(1, 4))
+			s.put("signatureAndHashes", g.vpairs("sigalgs.list", 1, 4, 32767))
 		} else {
 			s.put("signatureAndHashes", [][2]byte{})
 		}
 		s.put("secureRenegotiation", pres["reneg"])
 		if pres["alpn"] {
-			s.put("alpnProtocols", []string{g.name(1, 10), g.name(1, 10)})
+			s.put("alpnProtocols", []string{g.vname("alpn.n1", 1, 10, 255), g.vname("alpn.n2", 1, 10, 255)})
 		} else {
 			s.put("alpnProtocols", []string{})
 		}
 	case "serverHello":
 		s.put("vers", uint16(g.r.Intn(65536)))
 		s.put("random", g.bytes(32, 32))
-		s.put("sessionId", g.bytes(0, 32))
+		s.put("sessionId", g.vbytes("sessionId", 0, 32, 32))
 		s.put("cipherSuite", uint16(g.r.Intn(65536)))
 		s.put("compressionMethod", uint8(g.r.Intn(256)))
 		s.put("nextProtoNeg", pres["npn"])
 		if pres["npn"] {
-			s.put("nextProtos", []string{g.name(1, 10), g.name(1, 10)})
+			s.put("nextProtos", []string{g.vname("npn.p1", 1, 10, 255), g.vname("npn.p2", 1, 10, 255)})
 		} else {
 			s.put("nextProtos", []string{})
 		}
@@ -250,47 +314,47 @@ func build(t string, pres map[string]bool, g gen) (m interface{}, set map[string
 		s.put("secureRenegotiation", pres["reneg"])
 		ap := ""
 		if pres["alpn"] {
-			ap = g.name(1, 10)
+			ap = g.vname("alpn.name", 1, 10, 255)
 		}
 		s.put("alpnProtocol", ap)
 	case "certificate":
 		certs := [][]byte{}
-		for _, f := range []string{"c1", "c2"} {
+		for i, f := range []string{"c1", "c2"} {
 			if pres[f] {
-				certs = append(certs, g.bytes(1, 50))
+				certs = append(certs, g.vbytes(fmt.Sprintf("cert%d", i+1), 1, 50, 1<<24-1))
 			}
 		}
 		s.put("certificates", certs)
 	case "serverKeyExchange":
-		s.put("key", g.bytes(0, 60))
+		s.put("key", g.vbytes("key", 0, 60, 1<<24-1))
 	case "certificateStatus":
 		if pres["ocsp"] {
 			s.put("statusType", uint8(1))
-			s.put("response", g.bytes(1, 40))
+			s.put("response", g.vbytes("response", 1, 40, 1<<24-1))
 		} else {
 			s.put("statusType", uint8(2+g.r.Intn(254)))
 			s.put("response", []byte{})
 		}
 	case "serverHelloDone":
 	case "clientKeyExchange":
-		s.put("ciphertext", g.bytes(0, 60))
+		s.put("ciphertext", g.vbytes("ciphertext", 0, 60, 1<<24-1))
 	case "finished":
-		s.put("verifyData", g.bytes(0, 40))
+		s.put("verifyData", g.vbytes("verifyData", 0, 40, 1<<24-1))
 	case "nextProto":
-		s.put("proto", g.name(0, 20))
+		s.put("proto", g.vname("proto", 0, 20, 255))
 	case "certificateRequest":
 		s.put("hasSignatureAndHash", pres["sig"])
 		preset["hasSignatureAndHash"] = pres["sig"]
-		s.put("certificateTypes", g.bytes(1, 4))
+		s.put("certificateTypes", g.vbytes("types", 1, 4, 255))
 		if pres["sig"] {
-			s.put("signatureAndHashes", g.pairs(1, 4))
+			s.put("signatureAndHashes", g.vpairs("sigalgs", 1, 4, 32767))
 		} else {
 			s.put("signatureAndHashes", [][2]byte{})
 		}
 		cas := [][]byte{}
 		for _, f := range []string{"ca1", "ca2"} {
 			if pres[f] {
-				cas = append(cas, g.bytes(1, 30))
+				cas = append(cas, g.vbytes(f, 1, 30, 65535))
 			}
 		}
 		s.put("certificateAuthorities", cas)
@@ -300,17 +364,17 @@ func build(t string, pres map[string]bool, g gen) (m interface{}, set map[string
 		if pres["sig"] {
 			s.put("signatureAndHash", [2]byte{byte(g.r.Intn(256)), byte(g.r.Intn(256))})
 		}
-		s.put("signature", g.bytes(0, 60))
+		s.put("signature", g.vbytes("signature", 0, 60, 65535))
 	case "newSessionTicket":
-		s.put("ticket", g.bytes(0, 60))
+		s.put("ticket", g.vbytes("ticket", 0, 60, 65535))
 	case "sessionState":
 		s.put("vers", uint16(g.r.Intn(65536)))
 		s.put("cipherSuite", uint16(g.r.Intn(65536)))
-		s.put("masterSecret", g.bytes(0, 48))
+		s.put("masterSecret", g.vbytes("master", 0, 48, 65535))
 		certs := [][]byte{}
-		for _, f := range []string{"c1", "c2"} {
+		for i, f := range []string{"c1", "c2"} {
 			if pres[f] {
-				certs = append(certs, g.bytes(0, 50))
+				certs = append(certs, g.vbytes(fmt.Sprintf("cert%d", i+1), 0, 50, 1<<24-1))
 			}
 		}
 		s.put("certificates", certs)
@@ -457,12 +521,64 @@ func shapeSeed(seed int64, t string, pres []string, rep int) int64 {
 	return int64(h.Sum64() >> 1)
 }
 
+// roundTrip: unmarshal(marshal(m1)) must succeed, every field that was set must compare equal, the
+// package's own equal() must agree, and marshalling the parsed message again must give the same bytes.
+func roundTrip(t string, preset map[string]interface{}, m1 interface{}, set map[string]bool, data []byte) (why, p string) {
+	m2, ok, p := parse(t, preset, data)
+	switch {
+	case p != "":
+		why = "panic-unmarshal"
+	case !ok:
+		why = "unmarshal-false"
+	default:
+		names := make([]string, 0, len(set))
+		for n := range set {
+			names = append(names, n)
+		}
+		sort.Strings(names)
+		for _, n := range names {
+			a, _ := fld(m1, n)
+			b, _ := fld(m2, n)
+			if canon(a) != canon(b) {
+				why = "field:" + n
+				p = fmt.Sprintf("sent %s, parsed %s", canon(a), canon(b))
+				break
+			}
+		}
+		if why == "" {
+			eq := false
+			if p = vh.Guard(func() {
+				bfe_tls.VerifTlsrecMarshal(m2) // fill the marshal cache, as the package's test does
+				eq = bfe_tls.VerifTlsrecEqual(m1, m2)
+			}); p != "" {
+				why = "panic-equal"
+			} else if !eq {
+				why = "equal-false"
+			}
+		}
+		if why == "" {
+			// marshalling the parsed message from its fields must give the same bytes
+			if rf, e := fld(m2, "raw"); e == nil {
+				rf.Set(reflect.Zero(rf.Type()))
+			}
+			var again []byte
+			if p = vh.Guard(func() { again = bfe_tls.VerifTlsrecMarshal(m2) }); p != "" {
+				why = "panic-remarshal"
+			} else if !bytes.Equal(again, data) {
+				why = "remarshal-differs"
+				p = fmt.Sprintf("first %x second %x", data, again)
+			}
+		}
+	}
+	return why, p
+}
+
 // opGen: the random choices of one operation depend only on (seed, shape, variant, operation),
 // so that a replay file holding that single operation reproduces the same bytes.
 func opGen(seed int64, sh *msgShape, rep int, op *msgOp) gen {
 	h := fnv.New64a()
 	fmt.Fprintf(h, "%d|%s|%s|%d|%s|%s|%s|%v", seed, sh.T, strings.Join(sh.Pres, ","), rep, op.K, op.Node, op.W, op.Framed)
-	return gen{mrand.New(mrand.NewSource(int64(h.Sum64() >> 1)))}
+	return gen{r: mrand.New(mrand.NewSource(int64(h.Sum64() >> 1)))}
 }
 
 type msgFail struct {
@@ -509,7 +625,7 @@ func msgRun() {
 			vh.Emit(map[string]interface{}{"id": sh.ID, "machinery": fmt.Sprintf("%s %v: %s", sh.T, sh.Pres, msg)})
 		}
 		for rep := sh.Rep0; rep < sh.Rep0+sh.Reps; rep++ {
-			g := gen{mrand.New(mrand.NewSource(shapeSeed(seed, sh.T, sh.Pres, rep)))}
+			g := gen{r: mrand.New(mrand.NewSource(shapeSeed(seed, sh.T, sh.Pres, rep))), reg: map[string]vfield{}}
 			m1, set, preset, err := build(sh.T, pres, g)
 			if err != nil {
 				machinery(err.Error())
@@ -537,56 +653,61 @@ func msgRun() {
 				switch op.K {
 				case "rt":
 					evals++
-					m2, ok, p := parse(sh.T, preset, data)
-					why := ""
-					switch {
-					case p != "":
-						why = "panic-unmarshal"
-					case !ok:
-						why = "unmarshal-false"
-					default:
-						names := make([]string, 0, len(set))
-						for n := range set {
-							names = append(names, n)
-						}
-						sort.Strings(names)
-						for _, n := range names {
-							a, _ := fld(m1, n)
-							b, _ := fld(m2, n)
-							if canon(a) != canon(b) {
-								why = "field:" + n
-								p = fmt.Sprintf("sent %s, parsed %s", canon(a), canon(b))
-								break
-							}
-						}
-						if why == "" {
-							eq := false
-							if p = vh.Guard(func() {
-								bfe_tls.VerifTlsrecMarshal(m2) // fill the marshal cache, as the package's test does
-								eq = bfe_tls.VerifTlsrecEqual(m1, m2)
-							}); p != "" {
-								why = "panic-equal"
-							} else if !eq {
-								why = "equal-false"
-							}
-						}
-						if why == "" {
-							// marshalling the parsed message from its fields must give the same bytes
-							if rf, e := fld(m2, "raw"); e == nil {
-								rf.Set(reflect.Zero(rf.Type()))
-							}
-							var again []byte
-							if p = vh.Guard(func() { again = bfe_tls.VerifTlsrecMarshal(m2) }); p != "" {
-								why = "panic-remarshal"
-							} else if !bytes.Equal(again, data) {
-								why = "remarshal-differs"
-								p = fmt.Sprintf("first %x second %x", data, again)
-							}
-						}
-					}
+					why, p := roundTrip(sh.T, preset, m1, set, data)
 					if why != "" {
 						rtFailed = true
 						fail(rep, op, "rt/"+sh.T+"/"+why, fmt.Sprintf("%s pres=%v bytes=%x: %s", sh.T, sh.Pres, data, p))
+					}
+				case "size":
+					// content of op.Node exactly as long as the class says: one descendant field is resized
+					if rep != sh.Rep0 && (rep != sh.Rep0+1 || vh.Tier() == "quick") {
+						continue // one variant (thorough: two) is resized
+					}
+					e, okn := ext[op.Node]
+					if !okn {
+						machinery("operation on unknown node " + op.Node)
+						return
+					}
+					og := opGen(seed, &sh, rep, op)
+					filler, need, target := sizePlan(sh.Nodes, ext, g.reg, op.Node, e, op.W, og)
+					if filler == "" {
+						skips++
+						continue
+					}
+					g2 := gen{r: mrand.New(mrand.NewSource(shapeSeed(seed, sh.T, sh.Pres, rep))), reg: map[string]vfield{},
+						ov: map[string]int{filler: need}}
+					mb, setb, presetb, err := build(sh.T, pres, g2)
+					if err != nil {
+						machinery(err.Error())
+						return
+					}
+					var big []byte
+					if p := vh.Guard(func() { big = bfe_tls.VerifTlsrecMarshal(mb) }); p != "" {
+						fail(rep, op, fmt.Sprintf("size/%s/%s/%s/panic-marshal", sh.T, op.Node, op.W), p)
+						continue
+					}
+					big = exact(big)
+					// the class is reached when the walk (or, if the marshalled bytes no longer follow the
+					// layout, the arithmetic) says so; a failed walk here is for the round trip to explain
+					have := ext[filler].cend - ext[filler].cstart
+					if len(big) != len(data)+need-have {
+						skips++ // another length moved with it (e.g. NPN padding): class not reachable
+						continue
+					}
+					if ext2, e2 := walk(big, sh.Nodes); e2 == nil {
+						if x := ext2[op.Node]; x.cend-x.cstart != target {
+							skips++
+							continue
+						}
+					}
+					evals++
+					if why, p := roundTrip(sh.T, presetb, mb, setb, big); why != "" {
+						if d := os.Getenv("VERIF_DUMP"); d != "" {
+							os.WriteFile(d, big, 0o644)
+						}
+						fail(rep, op, fmt.Sprintf("size/%s/%s/%s/%s", sh.T, op.Node, op.W, why),
+							fmt.Sprintf("%s pres=%v: content of %s made %d bytes long (field %s = %d bytes), message of %d bytes starting %x: %s",
+								sh.T, sh.Pres, op.Node, target, filler, need, len(big), big[:min(len(big), 24)], trunc(p, 300)))
 					}
 				case "cut", "pert":
 					e, okn := ext[op.Node]
@@ -733,4 +854,88 @@ func mutate(data []byte, e *extent, op *msgOp, hasHdr bool, g gen) ([]byte, stri
 		mut[e.lenAt+i] = byte(nv >> (8 * uint(e.lb-1-i)))
 	}
 	return mut, fmt.Sprintf("length at %d: %d -> %d", e.lenAt, v, nv)
+}
+
+func trunc(s string, n int) string {
+	if len(s) > n {
+		return s[:n] + "..."
+	}
+	return s
+}
+
+// sizePlan picks the descendant field of node that can be resized so that the content of node
+// becomes a length of the class, and says how long that field must be.  "" when not reachable.
+func sizePlan(nodes []msgNode, ext map[string]*extent, reg map[string]vfield, node string, e *extent, class string, g gen) (string, int, int) {
+	par := map[string]string{}
+	for _, n := range nodes {
+		par[n.ID] = n.Par
+	}
+	within := func(id string) bool {
+		if node == "hdr" {
+			return true
+		}
+		for x := id; x != ""; x = par[x] {
+			if x == node {
+				return true
+			}
+		}
+		return false
+	}
+	var lo, hi int
+	switch class {
+	case "c250":
+		lo, hi = 250, 254
+	case "c255":
+		lo, hi = 255, 255
+	case "c256":
+		lo, hi = 256, 261
+	case "c65530":
+		lo, hi = 65530, 65534
+	case "c65535":
+		lo, hi = 65535, 65535
+	case "c65536":
+		lo, hi = 65536, 65541
+	default:
+		return "", 0, 0
+	}
+	cur := e.cend - e.cstart
+	kind := map[string]msgNode{}
+	for _, n := range nodes {
+		kind[n.ID] = n
+	}
+	// growing a field grows every length-prefixed ancestor of it: all of them must have the room
+	roomAbove := func(id string, delta int) bool {
+		for x := par[id]; x != ""; x = par[x] {
+			a, n := ext[x], kind[x]
+			if a == nil || a.lenAt < 0 || n.K == "cnt" {
+				continue
+			}
+			if a.cend-a.cstart+delta > 1<<(8*uint(a.lb))-1 {
+				return false
+			}
+		}
+		return true
+	}
+	start := lo + g.r.Intn(hi-lo+1)
+	// candidates in wire order; the roomiest field that can hit a length of the class, then the last
+	best, bestNeed, bestTarget := "", 0, 0
+	for _, n := range nodes {
+		f, ok := reg[n.ID]
+		if !ok || ext[n.ID] == nil || !within(n.ID) {
+			continue
+		}
+		if best != "" && f.max < reg[best].max {
+			continue
+		}
+		have := ext[n.ID].cend - ext[n.ID].cstart
+		for k := 0; k <= hi-lo; k++ {
+			target := lo + (start-lo+k)%(hi-lo+1)
+			need := have + target - cur
+			if need >= f.lo && need <= f.max && need%f.unit == 0 && roomAbove(n.ID, need-have) {
+				best, bestNeed, bestTarget = n.ID, need, target
+				break
+			}
+		}
+	}
+	return best, bestNeed, bestTarget
 }
